@@ -47,6 +47,9 @@ class Plan(object):
         # the usual `if scenario.status == Status.failed: take_screenshot()` idiom; reading must not
         # change any outcome
         self.peek = bool(program.get("peek"))
+        # before_all / before_feature / before_scenario note which tag-expression dialect is in force for
+        # expressions that user code builds during the run (make_tag_expression without a protocol)
+        self.probe_protocol = bool(program.get("probe_protocol"))
         # hooks wrapped with the documented behave.log_capture.capture decorator:
         # None | "plain" (@capture) | "error" (@capture(level=logging.ERROR))
         self.capture_hooks = program.get("capture_hooks")
@@ -89,6 +92,14 @@ def make_hooks(plan):
                         elem.status     # noqa: read only
                 if args and hasattr(args[0], "status"):
                     args[0].status      # noqa: read only
+            if plan.probe_protocol and name in ("before_all", "before_feature", "before_scenario"):
+                from behave.tag_expression import TagExpressionProtocol, make_tag_expression
+                note = {"kind": "protocol", "hook": name, "value": TagExpressionProtocol.current().name}
+                try:
+                    note["a,b matches [a]"] = bool(make_tag_expression("a,b").check(["a"]))
+                except Exception as e:  # noqa
+                    note["a,b matches [a]"] = "error: %s" % e.__class__.__name__
+                plan.notes.append(note)
             for obs in plan.observers:
                 obs("hook", name, context, args[0] if args else None)
             for c in plan.hook_cleanups.get(k, ()):
